@@ -86,9 +86,13 @@ def low_cell(c):
     elif f == 'e':
         out.update(t='e', v=fm['v']['v'])
     elif f == 'd':
-        out.update(v=str(fm['v']['s']), s=STYLE_DATE)
+        from fractions import Fraction
+        fr = Fraction(fm['v']['fn'], fm['v']['fd'])
+        out.update(v=str(fm['v']['s']) + (xl.fmt_rational(fr.numerator, fr.denominator)[1:] if fr else ''), s=STYLE_DATE)
     elif f == 'iso':
-        out.update(t='d', v=xl.serial_to_date(fm['v']['s']).isoformat() + 'T00:00:00')
+        from fractions import Fraction
+        secs = int(Fraction(fm['v']['fn'], fm['v']['fd']) * 86400)
+        out.update(t='d', v=xl.serial_to_date(fm['v']['s']).isoformat() + 'T%02d:%02d:%02d' % (secs // 3600, secs // 60 % 60, secs % 60))
     elif f in ('fc', 'sm', 'sx'):
         t, v, s = value_attrs(fm['cached'])
         if t:
@@ -530,6 +534,9 @@ def read_xlsx(path):
                         val = num
                     elif fmt in PURE_DATE_FMT and num['t'] == 'num' and num['d'] == 1 and 61 <= num['n'] < 2958466:
                         val = {'t': 'date', 's': num['n'], 'fn': 0, 'fd': 1}
+                    elif fmt in PURE_DATE_FMT and num['t'] == 'num' and num['d'] in (2, 4, 8, 16) and 61 <= num['n'] // num['d'] < 2958465:
+                        # a serial with a time of day (a dyadic fraction of the day: whole seconds, exact in doubles)
+                        val = {'t': 'date', 's': num['n'] // num['d'], 'fn': num['n'] % num['d'], 'fd': num['d']}
                 elif t == 's':
                     s, plain = sst[int(vtext)]
                     if plain:
@@ -542,12 +549,14 @@ def read_xlsx(path):
                 elif t == 'e':
                     val = {'t': 'err', 'v': vtext}
                 elif t == 'd':
-                    mm = re.match(r'^(\d{4})-(\d\d)-(\d\d)T00:00:00(?:\.0+)?Z?$', vtext)
+                    mm = re.match(r'^(\d{4})-(\d\d)-(\d\d)T(\d\d):(\d\d):(\d\d)(?:\.0+)?Z?$', vtext)
                     if mm:
-                        y, mo, d = map(int, mm.groups())
+                        y, mo, d, hh, mi, ss = map(int, mm.groups())
                         s = xl.ymd_to_serial(y, mo, d)
                         if s >= 61:
-                            val = {'t': 'date', 's': s, 'fn': 0, 'fd': 1}
+                            from fractions import Fraction
+                            fr = Fraction(hh * 3600 + mi * 60 + ss, 86400)
+                            val = {'t': 'date', 's': s, 'fn': fr.numerator, 'fd': fr.denominator}
                 # ---- the storage form ----
                 f = c.find(NS + 'f')
                 if f is None:
@@ -739,11 +748,11 @@ def gen_workbook(rng):
                 cell.update(t='b', v=rng.choice('01'))
             elif k == 5:
                 cell.update(t='e', v=rng.choice(ERRS))
-            elif k == 6:
-                cell.update(v=str(rng.randint(61, 60000)), s=STYLE_DATE)
+            elif k == 6:      # a date, sometimes with a time of day (06:00, 12:00, 13:30, 18:00)
+                cell.update(v=str(rng.randint(61, 60000)) + rng.choice(['', '', '.25', '.5', '.5625', '.75']), s=STYLE_DATE)
             elif k == 7:
                 d = xl.serial_to_date(rng.randint(61, 60000))
-                cell.update(t='d', v=d.isoformat() + 'T00:00:00')
+                cell.update(t='d', v=d.isoformat() + rng.choice(['T00:00:00', 'T00:00:00', 'T13:30:00', 'T06:00:00', 'T23:59:59']))
             elif k == 8:
                 cell.update(v=rnd_number(rng), s=2)
             elif k in (9, 10):
